@@ -85,6 +85,14 @@ func (ex *Executor) call(st *State, fr *Frame, x *ssa.Call) bool {
 	if fn.Blocks == nil && fn.Name() == "init" {
 		return false // init of a package without bodies
 	}
+	if strings.HasPrefix(name, "encoding/json.") {
+		// types with their own (Un)MarshalJSON are dispatched to it, as encoding/json does
+		if m, margs := ex.jsonDispatch(name, args); m != nil {
+			fr.ip++
+			ex.pushFrame(st, m, margs, nil, retReg)
+			return true
+		}
+	}
 	if fn.Blocks == nil || ex.isIntrinsic(name) {
 		res, handled := ex.intrinsic(st, fr, name, fn, args, cc)
 		if handled {
